@@ -72,3 +72,36 @@ Definition guard_case (g : gin) (code : nat) (ncomp_obs pkt_cols : Z) : bool :=
   | Accept => (ncomp_obs =? ncomp g) && (pkt_cols =? ncomp g)
   | _ => true
   end.
+
+(* ---- svd_solver resolution (fit, lines 356-371) --------------------------------------------------
+     self._fit_svd_solver = self.svd_solver
+     if "auto":  max(n_samples, n_features) <= 500 (or n_components_ == "mle")   -> "full"
+                 elif n_components_ >= 1 and n_components_ < 0.8 * max(n_samples, n_features) -> "randomized"
+                 else                                                             -> "full"
+   [k] is the resolved integer n_components_.  The float comparison k < 0.8*m is modelled exactly
+   as 5 k < 4 m (the generator never produces the tie 5 k = 4 m, where binary64 rounding of 0.8*m
+   could decide either way).  _fit then calls _decompose_full for "full" and _decompose_truncated
+   for "arpack" / "randomized". *)
+Inductive solver := SAuto | SFull | SArpack | SRandomized.
+
+Definition resolve_solver (s : solver) (n d k : Z) : solver :=
+  match s with
+  | SAuto =>
+      if Z.max n d <=? 500 then SFull
+      else if (1 <=? k) && (5 * k <? 4 * Z.max n d) then SRandomized
+      else SFull
+  | _ => s
+  end.
+
+Definition scode (s : solver) : nat :=
+  match s with SAuto => 0 | SFull => 1 | SArpack => 2 | SRandomized => 3 end%nat.
+
+(* one observed fit: code of est._fit_svd_solver, number of calls of _decompose_full and of
+   _decompose_truncated recorded by wrappers on the instance *)
+Definition solver_case (s : solver) (n d k : Z) (code full_calls trunc_calls : nat) : bool :=
+  let r := resolve_solver s n d k in
+  Nat.eqb (scode r) code &&
+  match r with
+  | SFull => Nat.eqb full_calls 1 && Nat.eqb trunc_calls 0
+  | _ => Nat.eqb full_calls 0 && Nat.eqb trunc_calls 1
+  end.
